@@ -533,6 +533,11 @@ def m_retry(x, ref: RefResult, spec: dict, rid: int = 0) -> t.List[V]:
         for n, exp in exp_by_node.items():
             if n in ref.certain and len(by_node.get(n, [])) < len(exp):
                 out.append(('retry-too-few-attempts', f'{n} invoked {len(by_node.get(n, []))}x; reference {len(exp)}x'))
+    # consecutive attempts of one execution are invoked with identical arguments, whatever the reference says about them
+    kw_of = {(s[1], s[2]): norm(s[3]) for s in tr.starts}
+    for (n, i0, i1, delay) in ref.gaps:
+        if (n, i0) in kw_of and (n, i1) in kw_of and kw_of[(n, i0)] != kw_of[(n, i1)]:
+            out.append(('retry-kwargs-change-between-attempts', f'{n}: attempt {i0} got {kw_of[(n, i0)]!r}, attempt {i1} got {kw_of[(n, i1)]!r}'))
     # gaps between attempt i's end and attempt i+1's start
     for (n, i0, i1, delay) in ref.gaps:
         if (n, i0) in tr.ends and any(s[1] == n and s[2] == i1 for s in tr.starts):
